@@ -41,16 +41,16 @@ func (g *customGen[V]) maybeValue(t *T) (V, bool) {
 	parent := t
 	t = newT(t.tb, t.s, flags.debug, nil)
 	t.parent = parent
-	defer t.cleanup()
-
 	defer func() {
 		if r := recover(); r != nil {
-			// a skip does not undo a non-fatal failure signaled before it
+			// a skip does not undo a non-fatal failure signaled before it, or by a cleanup function
 			if _, ok := r.(invalidData); !ok || t.Failed() {
 				panic(r)
 			}
 		}
 	}()
+
+	defer t.cleanup() // before the recover above: a failure signaled by a cleanup function is not part of a rejected attempt
 
 	v := g.fn(t)
 	t.failOnError() // a non-fatal failure fails the test case: do not let a later rejection hide it
